@@ -33,6 +33,9 @@ def main(run):
     # which page of a listing an object appears on (fault-free histories: garbage comes from deletes racing nothing, foreign objects stay)
     traces += rc.histories(run, ['plain', 'indep', 'mixed'] if quick else rc.ALL_GRAPHS, range(run.seed * 100 + 90, run.seed * 100 + 90 + (2 if quick else 8)),
                            14 if quick else 25, reads=False, p_clean=0.35, p_delete=0.15, flavour='s3', foreign=foreign)
+    # ... and over the REAL B2 adapter: names have versions there (two workers storing one chunk create two), delete must remove the name
+    traces += rc.histories(run, ['plain', 'shared', 'mixed'] if quick else rc.ALL_GRAPHS, range(run.seed * 100 + 95, run.seed * 100 + 95 + (2 if quick else 8)),
+                           14 if quick else 25, reads=False, p_clean=0.3, p_delete=0.25, flavour='b2', foreign=foreign)
     rc.validate(run, traces, CLAUSES, label='c08.histories')
     run.coverage['rule'] = ('a case is one command history (key graph x seed, with interrupted commands leaving orphans) or one replayed TLC '
                             'behaviour; non-trivial = more than 10 backend events / more than 2 replayed commands')
